@@ -167,6 +167,22 @@ func TestC17(t *testing.T) {
 					max = max - 0
 				}
 			}
+			// an earlier scale-up by a different amount on the same provider object (an earlier scan),
+			// followed by the refresh every scan starts with
+			if d0 := int64(rapid.SampledFrom([]int{0, 0, 1, 3, 21}).Draw(rt, "earlierScaleUp")); d0 > 0 && removedEarlier == 0 && !stale && desired+d0+d <= max-0 && d > 0 {
+				savedPlan := c.a.Fleet
+				c.a.Fleet = sim.FleetPlan{Split: 1, PageSize: 50}
+				var e0 error
+				callTarget(rt, "C17", "IncreaseSize (earlier)", func() { e0 = c.ng.IncreaseSize(d0) })
+				c.a.Fleet = savedPlan
+				if e0 != nil {
+					rt.Fatalf("harness: earlier scale-up failed: %v", e0)
+				}
+				if err := c.prov.Refresh(); err != nil {
+					rt.Fatalf("harness: refresh: %v", err)
+				}
+				desired = c.asg.Desired
+			}
 			mark := c.j.Mark()
 			callTarget(rt, "C17", "IncreaseSize", func() { err = c.ng.IncreaseSize(d) })
 			es := c.j.Since(mark)
